@@ -216,43 +216,10 @@ def orth_one(dt):
             """<Q_j, vec> for the batch element bb as a sympy expression"""
             return T.tr(one(inner(col(Q, SInt(j) if not isinstance(j, SInt) else j), vec), bb))
 
-        def make_rule(zero_w=None, t_sym=None, l_sym=None, l_lt_t=False):
-            Qf = T.fn(Q.fn(z3.IntVal(0), z3.IntVal(0), z3.IntVal(0))[0].val.decl().name())
-
-            def rule(f, v, lo, hi):
-                facs = list(sp.Mul.make_args(f))
-                coeff = [x for x in facs if not x.has(v)]
-                rest = []
-                for x in facs:
-                    if x.has(v):
-                        if isinstance(x, sp.Pow) and x.exp == 2:
-                            rest += [x.base, x.base]
-                        else:
-                            rest.append(x)
-                if len(rest) != 2:
-                    return None
-                def qcol(x):
-                    y = x.args[0] if isinstance(x, sp.conjugate) else x
-                    if getattr(y, "func", None) == Qf and len(y.args) == 3 and y.args[1] == v:
-                        return y.args[2], isinstance(x, sp.conjugate)
-                    return None
-                qa, qb = qcol(rest[0]), qcol(rest[1])
-                if qa and qb and (dt == "real" or qa[1] != qb[1]):
-                    A_, B_ = qa[0], qb[0]
-                    d = sp.simplify(A_ - B_)
-                    if d == 0:
-                        val = sp.Integer(1)
-                    elif d.is_number or (l_lt_t and {A_, B_} == {l_sym, t_sym}):
-                        val = sp.Integer(0)
-                    else:
-                        return None
-                    return sp.Mul(*coeff) * val
-                if zero_w is not None:
-                    for q_, o_ in ((qa, rest[1]), (qb, rest[0])):
-                        if q_ and (dt == "real" or q_[1]) and zero_w(q_[0], o_, v):
-                            return sp.Integer(0)
-                return None
-            return rule
+        Qf = T.fn(Q.fn(z3.IntVal(0), z3.IntVal(0), z3.IntVal(0))[0].val.decl().name())
+        cplx = dt == "complex"
+        # hypothesis: Q_0..Q_idx orthonormal  -  sum_r conj(Q[r, a]) Q[r, b] = delta(a, b)   (column indices a, b <= idx)
+        orth = symalg.pair_rule(Qf, 1, Qf, 1, cplx, lambda pa, pb: [sp.KroneckerDelta(pa[2], pb[2])])
 
         def for_loop(lo, hi, body, init):
             W0, h0 = init
@@ -264,17 +231,14 @@ def orth_one(dt):
             wname = w.fn(z3.IntVal(0), z3.IntVal(0))[0].val.decl().name()
             Wf = T.fn(wname)
             t_s, l_s = T.tr(t.term), T.tr(l0)
-            # invariant at t:  <Q_l, w> = 0 for l < t
-            def zero_w(colidx, other, v):
-                return getattr(other, "func", None) == Wf and other.args[-1] == v and colidx == l_s
+            # invariant at t:  <Q_l, w> = 0 for the fixed l < t  (only for column l: the inner product with column t is the coefficient h_t)
+            inv_l = symalg.pair_rule(Qf, 1, Wf, 1, cplx, lambda pa, pb: [sp.Integer(0)] if sp.simplify(pa[2] - l_s) == 0 else None)
             # case l < t
-            e1 = T.tr(one(inner(col(Q, SInt(l0)), w1), bb))
-            e1 = symalg.rewrite_sums(e1, make_rule(zero_w=zero_w, t_sym=t_s, l_sym=l_s, l_lt_t=True))
-            goals.append(("fold invariant preserved by the real Gram-Schmidt step: <Q_l, w'> = 0 for l < t (given <Q_l, w> = 0 and orthonormal Q_0..Q_idx)", bool(symalg.is_zero(e1))))
+            ok1, r1 = symalg.zero_after(T.tr(one(inner(col(Q, SInt(l0)), w1), bb)), [orth, inv_l], distinct=[(l_s, t_s)])
+            goals.append(("fold invariant preserved by the real Gram-Schmidt step: <Q_l, w'> = 0 for l < t (given <Q_l, w> = 0 and orthonormal Q_0..Q_idx)", bool(ok1)))
             # case l = t
-            e2 = T.tr(one(inner(col(Q, t), w1), bb))
-            e2 = symalg.rewrite_sums(e2, make_rule())
-            goals.append(("fold invariant established for the new index: <Q_t, w'> = 0 (h_t is the component of w along Q_t)", bool(symalg.is_zero(e2))))
+            ok2, r2 = symalg.zero_after(T.tr(one(inner(col(Q, t), w1), bb)), [orth])
+            goals.append(("fold invariant established for the new index: <Q_t, w'> = 0 (h_t is the component of w along Q_t)", bool(ok2)))
             fl["wfin"] = state_array("w_fold", W0.shape, W0.dtype)
             fl["hfin"] = state_array("h_fold", h0.shape, h0.dtype)
             return fl["wfin"], fl["hfin"]
@@ -286,17 +250,16 @@ def orth_one(dt):
         Wfin = T.fn(wf.fn(z3.IntVal(0), z3.IntVal(0))[0].val.decl().name())
         l_s = T.tr(l0)
 
-        def zero_fin(colidx, other, v):          # invariant at the exit of the fold: <Q_l, w_fold> = 0 for every l <= idx
-            return getattr(other, "func", None) == Wfin and other.args[-1] == v
+        # invariant at the exit of the fold: <Q_l, w_fold> = 0 for every l <= idx
+        inv_fin = symalg.pair_rule(Qf, 1, Wfin, 1, cplx, lambda pa, pb: [sp.Integer(0)])
         newcol = col(Q1, k + 1)
-        e3 = T.tr(one(inner(col(Q, SInt(l0)), newcol), bb))
-        e3 = symalg.rewrite_sums(e3, make_rule(zero_w=zero_fin))
-        goals.append(("the new basis vector is orthogonal to Q_0..Q_idx: <Q_l, Q'_{idx+1}> = 0 for l <= idx", bool(symalg.is_zero(e3))))
+        ok3, r3 = symalg.zero_after(T.tr(one(inner(col(Q, SInt(l0)), newcol), bb)), [orth, inv_fin])
+        goals.append(("the new basis vector is orthogonal to Q_0..Q_idx: <Q_l, Q'_{idx+1}> = 0 for l <= idx", bool(ok3)))
         e4 = T.tr(one(inner(newcol, newcol), bb))
         clipf = T.fn("clip_lo")
         # no clipping: clip_lo(x, lo) = x for x >= lo  (instance), x = ||w|| = sqrt(sum |w|^2) > 0
         e4 = e4.replace(lambda x: getattr(x, "func", None) == clipf, lambda x: x.args[0])
-        goals.append(("and has unit norm when the normalisation is not clipped: <Q'_{idx+1}, Q'_{idx+1}> = 1", bool(symalg.is_zero(e4 - 1))))
+        goals.append(("and has unit norm when the normalisation is not clipped: <Q'_{idx+1}, Q'_{idx+1}> = 1", bool(symalg.zero_after(e4 - 1, [])[0])))
         return goals
     return K.run_paths(f"C15/arnoldi orthonormality[{dt}]", FN + "arnoldi_fact", thunk, dict(engine="ARNOLDI", part="orth", dtype=dt),
                        extra_backend=dict(while_loop_winfo=K.capture_loop(store)))
